@@ -41,15 +41,16 @@ func c18Kinds(aux string) map[string]kindSpec {
 		"commentdoc": {`.`, "# just a comment\n", "yaml", ""},
 		"csv":        {`.[0].b`, "a,b\n1,x\n", "csv", ""},
 		// the same expression text (one parsed tree) on different documents: nothing computed from the first document may stay in the tree
-		"regexa":  {`.p as $p | [.items[] | select(test("^\($p)"))]`, "p: a\nitems: [apple, banana]\n", "yaml", ""},
-		"regexb":  {`.p as $p | [.items[] | select(test("^\($p)"))]`, "p: b\nitems: [apple, banana]\n", "yaml", ""},
-		"interpb": {`"x\(.a)y\(.b)"`, "a: 9\nb: nine\n", "yaml", ""},
-		"subb":    {`.s | sub("\(.from)", "\(.to)")`, "s: hello\nfrom: l\nto: L\n", "yaml", ""},
-		"suba":    {`.s | sub("\(.from)", "\(.to)")`, "s: hello\nfrom: h\nto: J\n", "yaml", ""},
-		"tagset":  {`.a tag = .t`, "a: 1\nt: \"!!str\"\n", "yaml", ""},
-		"tagupd":  {`.b tag |= "!!int"`, "b: \"2\"\n", "yaml", ""},
-		"xmlc":    {`.`, "# hello\na: 1\n", "yaml", "xml"},
-		"xmlp":    {`.`, "b: 2\n", "yaml", "xml"},
+		"regexa":      {`.p as $p | [.items[] | select(test("^\($p)"))]`, "p: a\nitems: [apple, banana]\n", "yaml", ""},
+		"regexb":      {`.p as $p | [.items[] | select(test("^\($p)"))]`, "p: b\nitems: [apple, banana]\n", "yaml", ""},
+		"interpb":     {`"x\(.a)y\(.b)"`, "a: 9\nb: nine\n", "yaml", ""},
+		"subb":        {`.s | sub("\(.from)", "\(.to)")`, "s: hello\nfrom: l\nto: L\n", "yaml", ""},
+		"suba":        {`.s | sub("\(.from)", "\(.to)")`, "s: hello\nfrom: h\nto: J\n", "yaml", ""},
+		"tagset":      {`.a tag = .t`, "a: 1\nt: \"!!str\"\n", "yaml", ""},
+		"tagupd":      {`.b tag |= "!!int"`, "b: \"2\"\n", "yaml", ""},
+		"xmlc":        {`.`, "# hello\na: 1\n", "yaml", "xml"},
+		"xmlp":        {`.`, "b: 2\n", "yaml", "xml"},
+		"envsubstopt": {`.s | envsubst(ne, nu)`, "s: \"v=${va}\"\n", "yaml", ""},
 	}
 }
 
